@@ -317,6 +317,8 @@ impl Engine for Pairs {
     }
     fn generate(&self, seed: u64, prop: &str) -> RunRecord {
         let (cfg, cmds) = gen(seed);
+        crate::abort::tee_cfg("E3-pairs", "pairs", &serde_json::to_value(&cfg).unwrap());
+        crate::abort::tee_cmds(&cmds);
         let (outcome, _) = execute(&cmds, false, prop);
         RunRecord { engine: "E3-pairs", profile: "pairs".into(), cfg: serde_json::to_value(&cfg).unwrap(), cmds: cmds.iter().map(|c| serde_json::to_value(c).unwrap()).collect(), outcome }
     }
